@@ -539,6 +539,9 @@ func (fr *frame) finishLoop(li *loopInfo) {
 			mod[k] = true
 		}
 	}
+	if os.Getenv("GOVC_DEBUG_LOOPMOD") != "" {
+		fmt.Fprintf(os.Stderr, "loop %d of %s modifies: %v\n", li.ord, fr.fn.Name(), sortedKeys(mod))
+	}
 	li.hav.finalize(u, mod, mod["*"] || mod["*conc"])
 }
 
